@@ -91,7 +91,11 @@ func cmdOne(args []string) {
 	}
 	runSeed := MixSeed(verifSeed(), spec.ID, uint64(idx))
 	t0 := time.Now()
+	knownList = loadKnown(filepath.Join(verifDir(), "known_findings.json"))
 	out := RunOne(spec, runSeed, max, true)
+	for k, v := range knownHits {
+		fmt.Printf("KNOWN-FINDING hit %dx: %s\n", v, k)
+	}
 	fmt.Printf("run %d seed=%d scenario=%s events=%d hash=%s nontrivial=%v wall=%.2fs\n", idx, runSeed, out.Cfg.Scenario, out.NEvents, out.TraceHash, out.Nontrivial, time.Since(t0).Seconds())
 	st := out.stats
 	fmt.Printf("blocks=%d txs=%d ok=%d simsec=%d\n", st.Blocks, st.Txs, st.TxsOK, st.SimSeconds)
@@ -363,6 +367,7 @@ func cmdReplay(id, path string) int {
 		fmt.Fprintln(os.Stderr, err)
 		return 2
 	}
+	knownList = loadKnown(filepath.Join(verifDir(), "known_findings.json"))
 	v, _ := ReplayRun(spec, rf.Config, rf.Events)
 	if v == nil {
 		fmt.Printf("replay of %s: no violation\n", path)
